@@ -103,16 +103,29 @@ func siblingKind(mt, k string) string {
 	return "otherId"
 }
 
-// swapPartner returns the position of the partner entry of entry i for kind "swap": the next
-// entry (cyclically) with another identity; -1 if there is none.
+// swapPartner returns the position of the partner entry of entry i for kind "swap": the first
+// entry in message order that carries another identity (the rule of gossip.World.ShareInMsg);
+// -1 if there is none.
 func swapPartner(es []Entry, i int) int {
-	for d := 1; d < len(es); d++ {
-		j := (i + d) % len(es)
+	for j := range es {
 		if es[j].R != es[i].R {
 			return j
 		}
 	}
 	return -1
+}
+
+// worldNames returns the abstract identity names of the entries in message order if every
+// entry carries an identity of the shared world (and the case does not override it).
+func (w *World) worldNames(cc *Concrete) ([]string, bool) {
+	var names []string
+	for _, e := range cc.Case.M.Entries {
+		if _, over := cc.Idents[e.R]; over || e.R < 1 || e.R > len(w.Idents) {
+			return nil, false
+		}
+		names = append(names, w.Idents[e.R-1])
+	}
+	return names, true
 }
 
 // BuildProto builds the p2pmsg message of the case (of the sibling type if typeOk is false).
@@ -154,7 +167,13 @@ func (w *World) BuildProto(cc *Concrete) p2pmsg.Message {
 				k = siblingKind(m.Mt, k)
 			}
 			tokenID := id
-			if k == "swap" { // the sender's genuine share of the partner entry's identity
+			if names, ok := w.worldNames(cc); ok && k == "swap" {
+				// made by the shared world: the sender's genuine share of the other identity of the message
+				sh := w.World.ShareInMsg(int(snd%NKeypers), names[i], "swap", names)
+				out.Shares = append(out.Shares, &p2pmsg.KeyShare{IdentityPreimage: id, Share: sh.Marshal()})
+				continue
+			}
+			if k == "swap" { // same rule for identities the shared world does not know
 				if j := swapPartner(m.Entries, i); j >= 0 {
 					k, tokenID = "valid", w.identOf(cc, m.Entries[j].R)
 				} else {
